@@ -62,6 +62,10 @@ func (r *baseRouter) ResultName() string { return r.resultName }
 
 // EnumerateTemplates enumerates all expressions on this object and its children
 func (r *baseRouter) EnumerateTemplates(localization flows.Localization, include func(i18n.Language, string)) {
+	// the phone number of a dial wait is a template
+	if dialWait, isDial := r.wait.(*waits.DialWait); isDial {
+		include(i18n.NilLanguage, dialWait.Phone())
+	}
 }
 
 // EnumerateDependencies enumerates all dependencies on this object
